@@ -20,7 +20,7 @@ RE_ASSIGN_OP = re.compile(r"=")  # TODO: scan until ch?
 RE_DROP = re.compile(r"DROP(?![_a-zA-Z0-9])")
 RE_GRAMMAR_DOC = re.compile(r"//!")
 RE_IDENTIFIER = re.compile(r"[_a-zA-Z][_a-zA-Z0-9]*")
-RE_INTEGER = re.compile(r"-?[0-9]+")
+RE_INTEGER = re.compile(r"[0-9]+|-0*[1-9][0-9]*")
 RE_MODIFIER = re.compile(r"[_@\$!]")
 RE_NEWLINE = re.compile(r"\r?\n")
 RE_NUMBER = re.compile(r"[0-9]+")
@@ -319,6 +319,7 @@ class Scanner:
 
         if value := self.scan(RE_PEEK):
             self.emit(TokenKind.PEEK, value)
+            self.skip_trivia()
             if self.peek() == "[":
                 self.emit(TokenKind.LBRACKET, self.next())
             else:
@@ -332,6 +333,7 @@ class Scanner:
 
             if value := self.scan(RE_RANGE_OP):
                 self.emit(TokenKind.RANGE_OP, value)
+                self.skip_trivia()
             else:
                 self.error("expected a range operator")
 
